@@ -53,7 +53,11 @@ def retyped(x, how):
 
 
 def fresh_options(case):
-    return {k: copy.deepcopy(case[k]) for k in OPT_KEYS if k in case}
+    kw = {k: copy.deepcopy(case[k]) for k in OPT_KEYS if k in case}
+    if case.get('share_filter_dict') and isinstance(kw.get('find_extrema_kwargs'), dict) and isinstance(kw.get('burst_kwargs'), dict) \
+            and kw['find_extrema_kwargs'].get('filter_kwargs') == kw['burst_kwargs'].get('filter_kwargs'):
+        kw['burst_kwargs']['filter_kwargs'] = kw['find_extrema_kwargs']['filter_kwargs']       # the SAME dict object in both places
+    return kw
 
 
 def call(case, api='func', shared=None):
@@ -74,6 +78,17 @@ def call(case, api='func', shared=None):
             fr_arg = [int(v) if float(v).is_integer() else v for v in fr_arg]
         else:
             fs_arg, fr_arg = np.int64(fs_arg) if float(fs_arg).is_integer() else np.float32(fs_arg).astype(np.float64), list(fr_arg)
+    if api == 'func' and case.get('buffer_history') and sig.flags.writeable:
+        # the same array OBJECT was analysed before, with the same settings, while it held other samples (a re-used buffer)
+        keep = sig.copy()
+        try:
+            with quiet():
+                sig[...] = keep[::-1]
+                compute_features(sig, fs_arg, fr_arg, **(fresh_options(case) if shared is None else kw))
+        except Exception:          # noqa: BLE001 - only the observed call is judged
+            pass
+        finally:
+            sig[...] = keep
     try:
         with quiet():
             if api == 'func':
@@ -119,6 +134,41 @@ def call_twice_shared(case):
         return out
     except Exception:          # noqa: BLE001 - totality is judged on the first (independent) call
         return None
+
+
+def switched_filter_length(fek, f_lo, user_fek=None):
+    """The user's edit between two calls that share ``fek``: switch the kind of filter length (seconds <-> cycles) in the nested
+    filter_kwargs dict, touching only keys the user wrote (``user_fek``: the options as the user wrote them)."""
+    user_fk = (user_fek if user_fek is not None else fek)['filter_kwargs']
+    fk = fek['filter_kwargs']
+    if 'n_seconds' in user_fk:
+        fk.pop('n_seconds')                 # back to the documented default (three cycles)
+    else:
+        n_cyc = user_fk.get('n_cycles', 3)
+        if 'n_cycles' in user_fk:
+            fk.pop('n_cycles')
+        fk['n_seconds'] = float(n_cyc) / f_lo
+    return fek
+
+
+def call_then_switch(case):
+    """Two calls sharing the option objects; between them the caller switches the kind of filter length in its own dict.
+    Returns (second table | None, exception | None, the options of the second call as the user wrote them)."""
+    from bycycle.features import compute_features
+    kw = fresh_options(case)
+    user2 = copy.deepcopy(case)
+    switched_filter_length(user2['find_extrema_kwargs'], case['f_range'][0])
+    try:
+        with quiet():
+            compute_features(np.array(case['sig'], copy=True), case['fs'], tuple(case['f_range']), **kw)
+    except Exception:          # noqa: BLE001 - the first call is judged elsewhere
+        return None, None, user2
+    switched_filter_length(kw['find_extrema_kwargs'], case['f_range'][0], case['find_extrema_kwargs'])
+    try:
+        with quiet():
+            return compute_features(np.array(case['sig'], copy=True), case['fs'], tuple(case['f_range']), **kw), None, user2
+    except Exception as e:          # noqa: BLE001
+        return None, e, user2
 
 
 def in_domain(case):
@@ -190,6 +240,26 @@ def run_case(sh, case, prop, api='func', driver='generated', nontrivial=None, to
                                                       fek_user if fek_user is not None else {'filter_kwargs': {'n_cycles': 3}},
                                                       'second compute_features call sharing the option dicts')
             sh.note('reused_option_dicts')
+    fek0 = case.get('find_extrema_kwargs')
+    if api == 'func' and df is not None and prop == 'C01' and case.get('switch_filter_length') and case.get('return_samples', True) \
+            and isinstance(fek0, dict) and isinstance(fek0.get('filter_kwargs'), dict):
+        # the caller keeps its option dicts, switches the kind of filter length (seconds <-> cycles) in them and calls again
+        pending = attach.take_violations()
+        df3, e3, user2 = call_then_switch(case)
+        attach.take_violations()
+        attach.VIOLS.extend(pending)
+        sh.note('filter_length_kind_switched_between_calls')
+        if e3 is not None:
+            ok3, info3 = in_domain(user2)
+            if ok3:
+                vs.append({'mechanism': 'second-call-after-option-edit:' + attach.exc_mechanism(e3),
+                           'message': 'after the caller switched the filter length kind in its own dict (%s -> %s) compute_features raised %r'
+                                      % (fek0.get('filter_kwargs'), user2['find_extrema_kwargs'].get('filter_kwargs'), e3)})
+        elif df3 is not None and monitors.centre_of(df3) is not None:
+            with quiet():
+                monitors.check_rows_against_reference(df3, np.asarray(case['sig']), case['fs'], tuple(case['f_range']),
+                                                      case.get('center_extrema', 'peak'), user2['find_extrema_kwargs'],
+                                                      'compute_features after the caller switched the filter length kind in its dict')
     got = attach.take_violations()
     vs += [v for v in got if v['property'] in (prop, '_monitor')]
     for v in got:
